@@ -462,11 +462,24 @@ impl Cfg {
         }
         let mut rerun = true;
         let start = Instant::now();
+        #[cfg(feature = "verif")]
+        let mut verif_passes = 0;
+        #[cfg(feature = "verif")]
+        if verif::degree_budget_exhausted(verif_passes) {
+            rerun = false;
+        }
         while rerun {
             // Rerun degree propagation if a single child node was updated.
             rerun = false;
             for basic_block in self.iter_mut() {
                 rerun = rerun || basic_block.propagate_degrees(&mut env);
+            }
+            #[cfg(feature = "verif")]
+            {
+                verif_passes += 1;
+                if verif::degree_budget_exhausted(verif_passes) {
+                    rerun = false;
+                }
             }
             // Bail out if analysis takes more than 10 seconds.
             if start.elapsed() > MAX_ANALYSIS_DURATION {
@@ -482,11 +495,24 @@ impl Cfg {
         let mut env = ValueEnvironment::new(&self.constants);
         let mut rerun = true;
         let start = Instant::now();
+        #[cfg(feature = "verif")]
+        let mut verif_passes = 0;
+        #[cfg(feature = "verif")]
+        if verif::value_budget_exhausted(verif_passes) {
+            rerun = false;
+        }
         while rerun {
             // Rerun value propagation if a single child node was updated.
             rerun = false;
             for basic_block in self.iter_mut() {
                 rerun = rerun || basic_block.propagate_values(&mut env);
+            }
+            #[cfg(feature = "verif")]
+            {
+                verif_passes += 1;
+                if verif::value_budget_exhausted(verif_passes) {
+                    rerun = false;
+                }
             }
             // Bail out if analysis takes more than 10 seconds.
             if start.elapsed() > MAX_ANALYSIS_DURATION {
@@ -521,5 +547,41 @@ impl fmt::Debug for Cfg {
             write!(f, "{basic_block:?}")?;
         }
         Ok(())
+    }
+}
+
+/// Verification hook H2: per-thread pass budgets standing in for the wall-clock
+/// time box of value and degree propagation, plus counters of the passes run.
+/// Inert unless a budget is set at run time.
+#[cfg(feature = "verif")]
+pub mod verif {
+    use std::cell::Cell;
+
+    thread_local! {
+        static VALUE_BUDGET: Cell<Option<usize>> = Cell::new(None);
+        static DEGREE_BUDGET: Cell<Option<usize>> = Cell::new(None);
+        static VALUE_PASSES: Cell<usize> = Cell::new(0);
+        static DEGREE_PASSES: Cell<usize> = Cell::new(0);
+    }
+
+    /// Stop value (degree) propagation after the given number of passes.
+    pub fn set_budgets(values: Option<usize>, degrees: Option<usize>) {
+        VALUE_BUDGET.with(|cell| cell.set(values));
+        DEGREE_BUDGET.with(|cell| cell.set(degrees));
+    }
+
+    /// Number of passes run by the last value and degree propagation.
+    pub fn passes() -> (usize, usize) {
+        (VALUE_PASSES.with(|cell| cell.get()), DEGREE_PASSES.with(|cell| cell.get()))
+    }
+
+    pub(super) fn value_budget_exhausted(passes: usize) -> bool {
+        VALUE_PASSES.with(|cell| cell.set(passes));
+        VALUE_BUDGET.with(|cell| matches!(cell.get(), Some(budget) if passes >= budget))
+    }
+
+    pub(super) fn degree_budget_exhausted(passes: usize) -> bool {
+        DEGREE_PASSES.with(|cell| cell.set(passes));
+        DEGREE_BUDGET.with(|cell| matches!(cell.get(), Some(budget) if passes >= budget))
     }
 }
